@@ -187,6 +187,60 @@ func checkC07(c *Ctx, r *Report) {
 	}
 	r.Floor("T1-clock", clockInGate, 1)
 
+	// ---- T1 SOURCE_DATE_EPOCH gate: no value-dependent handling ----
+	for _, fn := range fns {
+		if c.funcPkgPath(fn) != modPath+"/internal/modtime" {
+			continue
+		}
+		reads := false
+		forEachInstr(fn, func(in ssa.Instruction) {
+			if call, ok := in.(*ssa.Call); ok && calleeIs(call, "os", "", "Getenv") {
+				reads = true
+			}
+		})
+		if !reads {
+			continue
+		}
+		n := 0
+		forEachInstr(fn, func(in ssa.Instruction) {
+			ifi, ok := in.(*ssa.If)
+			if !ok {
+				return
+			}
+			n++
+			okCond := false
+			if bo, ok := ifi.Cond.(*ssa.BinOp); ok && (bo.Op == token.EQL || bo.Op == token.NEQ) {
+				for _, pair := range [][2]ssa.Value{{bo.X, bo.Y}, {bo.Y, bo.X}} {
+					k, isK := pair[1].(*ssa.Const)
+					if !isK {
+						continue
+					}
+					// emptiness of the variable's text, or nil-ness of a parse error
+					if k.Value != nil && k.Value.Kind().String() == "String" && constString(k) == "" {
+						if call, ok := pair[0].(*ssa.Call); ok && calleeIs(call, "os", "", "Getenv") {
+							okCond = true
+						}
+					}
+					if k.IsNil() && types.Identical(pair[0].Type(), errorType) {
+						okCond = true
+					}
+				}
+			}
+			r.Check(okCond, "T1-epoch", fmt.Sprintf("condition#%d in %s", n, c.funcKey(fn)), c.instrPos(ifi),
+				"the SOURCE_DATE_EPOCH gate may only distinguish 'unset' (empty text) and 'unparsable' (parse error); any other condition makes some valid epoch value fall through to the build-time clock")
+		})
+		unix := false
+		forEachInstr(fn, func(in ssa.Instruction) {
+			if call, ok := in.(*ssa.Call); ok && calleeIs(call, "time", "", "Unix") {
+				p := pa0(c).Of(call.Call.Args[0])
+				if p.has("call:strconv.ParseInt") || p.has("call:strconv.Atoi") || p.has("call:strconv.ParseUint") {
+					unix = true
+				}
+			}
+		})
+		r.Check(unix, "T1-epoch", "parsed epoch reaches time.Unix in "+c.funcKey(fn), c.pos(fn.Pos()), "the parsed value itself must become the package time")
+	}
+
 	// ---- T1 gate arguments ----
 	pa := newProv(c)
 	gate := c.Func("internal/modtime", "Get")
@@ -430,3 +484,5 @@ func scanAtomicMix(fns []*ssa.Function) []scanHit {
 	}
 	return hits
 }
+
+func pa0(c *Ctx) *provAnalysis { return newProv(c) }
